@@ -216,4 +216,6 @@ def rule_validate_rows(ctx):
     protocol.reader_rows_table(ctx, "O18.5", {"window", "modes", "faults"}, "validate_rows")
 
 
-RULES = [rule_main, rule_process, rule_until, rule_oserror, rule_validate_rows]
+from .common import rule_module_state  # noqa: E402
+
+RULES = [rule_main, rule_process, rule_until, rule_oserror, rule_validate_rows, rule_module_state]
